@@ -89,6 +89,9 @@ type cbObs struct {
 func observe(fn string, in system.Collection, args ...any) *opCtx {
 	_, oc := cbEnter(fn)
 	if oc != nil {
+		// a callback invoked from a goroutine the library started belongs to the same operation:
+		// invocations are counted per operation
+		oc = oc.top()
 		oc.obs = append(oc.obs, cbObs{fn: fn, in: in, args: args})
 	}
 	return oc
@@ -810,8 +813,8 @@ func (e *c17Exec) checkTypedCallH(where string, oc *opCtx, op *C17Op, got system
 	}
 }
 
-func execC17(t *testing.T, c *Case) *Verdict {
-	v := &Verdict{}
+func execC17(t *testing.T, c *Case) (v *Verdict) {
+	v = &Verdict{}
 	v.Stats.Runs = 1
 	if c.C17 == nil {
 		v.Infra = "case has no c17 section"
